@@ -39,12 +39,16 @@ __CPROVER_ensures(RV == NULL ? *vp == __CPROVER_old(*vp) :
                   (IN_TEXT(RV, p) && AFTER(RV, p) && !IS_DIGIT(*RV) && IS_DIGIT(*(RV - 1)) && min <= *vp && *vp <= max && 0 <= *vp))
 __CPROVER_assigns(*vp);
 
+/* ghost mirrors of the three numbers ParseOffset reads (set by ghost code right after each ParseInt call; minutes / seconds stay 0 when absent):
+ * the postcondition pins how they are COMBINED - sign, flipped by a leading '-', times ((h * 60 + m) * 60 + s) */
+extern int gp_h, gp_m, gp_s;
 const char* ParseOffset(const char* p, int min_hour, int max_hour, int sign, int_fast32_t* offset)
 __CPROVER_requires((p == NULL || TEXT_AT(p)) && __CPROVER_is_fresh(offset, sizeof(int_fast32_t)))
 __CPROVER_requires(-200 <= min_hour && min_hour <= max_hour && max_hour <= 200 && (sign == 1 || sign == -1))
 __CPROVER_ensures(RV == NULL ? 1 : (p != NULL && IN_TEXT(RV, p) && AFTER(RV, p) && \
-                  0 <= (long)*offset * sign * (p[0] == '-' ? -1 : 1) && (long)*offset * sign * (p[0] == '-' ? -1 : 1) <= (long)max_hour * 3600 + 3599))
-__CPROVER_assigns(*offset);
+                  0 <= gp_h && min_hour <= gp_h && gp_h <= max_hour && 0 <= gp_m && gp_m <= 59 && 0 <= gp_s && gp_s <= 59 && \
+                  (long)*offset == (long)sign * (p[0] == '-' ? -1 : 1) * ((((long)gp_h * 60) + gp_m) * 60 + gp_s)))
+__CPROVER_assigns(*offset, gp_h, gp_m, gp_s);
 
 #define DT_FMT_OK(pt) (((pt)->date.fmt == PosixTransition_J && 1 <= (pt)->date.j.day && (pt)->date.j.day <= 365) || \
                        ((pt)->date.fmt == PosixTransition_N && 0 <= (pt)->date.n.day && (pt)->date.n.day <= 365) || \
@@ -54,4 +58,4 @@ const char* ParseDateTime(const char* p, PosixTransition* res)
 __CPROVER_requires((p == NULL || TEXT_AT(p)) && __CPROVER_is_fresh(res, sizeof(PosixTransition)))
 /* success means a complete rule was read: the date form and its fields are assigned and in range, and so is the time */
 __CPROVER_ensures(RV == NULL ? 1 : (p != NULL && IN_TEXT(RV, p) && DT_FMT_OK(res) && -167L * 3600 - 3599 <= res->time.offset && res->time.offset <= 167L * 3600 + 3599))
-__CPROVER_assigns(*res);
+__CPROVER_assigns(*res, gp_h, gp_m, gp_s);
